@@ -323,7 +323,12 @@ namespace sqf::runtime
                     { // it is not
                         // Lookup inherited node and replace it
                         auto nav = lookup_in_logical(inherited);
-                        replaced.id_parent_inherited = nav.m_index;
+                        // (unless the existing class is among the ancestors of the new parent already:
+                        //  the inheritance chain would become a cycle and no lookup along it would ever end)
+                        if (!nav.inherits_from(replaced.id))
+                        {
+                            replaced.id_parent_inherited = nav.m_index;
+                        }
                     }
 
                     // Return found container as confignav
@@ -344,6 +349,21 @@ namespace sqf::runtime
                 auto& container = m_confighost.m_containers.at(m_index);
                 container.push_back(target, config::invalid_id);
             }
+        }
+        /// Whether the container with the id provided is this config or one of the configs it inherits from.
+        bool inherits_from(size_t id) const
+        {
+            size_t index = m_index;
+            size_t steps = 0;
+            while (index != config::invalid_id && steps++ <= m_confighost.m_containers.size())
+            {
+                if (index == id)
+                {
+                    return true;
+                }
+                index = m_confighost.m_containers.at(index).id_parent_inherited;
+            }
+            return false;
         }
         bool has_inherited_with_name(std::string target) const
         {
